@@ -10,6 +10,8 @@
                 font-resource names in scope on its discovery path (nearest declaring ancestor);
   * `specDom` : expected DOM = one record per discovered object; `none` = an error must be reported
                 (some discovered object, the root or the catalog is defective).
+  * `wfObj` / `wfDefs`: the representation invariant "every dictionary is a map" (keys strictly
+                increasing); checked by the judge on every case, assumed by Props/C11Spec.
   Only `utf8Valid` (a model of `std::str::from_utf8`, not of the crate) is shared with Model/PageDom.
 -/
 import Parsley.Model.PageDom
@@ -142,6 +144,34 @@ def view (defs : Defs) : Obj → View
         else .defective
     | _, _, _ => .defective
   | _ => .defective
+
+/-! ### representation invariant of dictionaries
+
+  `Obj.dict kvs` stands for a Rust `BTreeMap<Vec<u8>, _>`: an association list sorted by key bytes
+  (Model/Obj.lean).  `wfObj` says that every dictionary inside a value is such a map: keys strictly
+  increasing.  The judge checks it on every case; Props/C11Spec assumes it of the definition map. -/
+
+/-- keys strictly increasing (every key below all later keys) -/
+def sortedKeys : Kvs → Bool
+  | [] => true
+  | (k, _) :: t => t.all (fun e => bytesLt k e.1) && sortedKeys t
+
+mutual
+def wfObj : Obj → Bool
+  | .arr xs => wfList xs
+  | .dict kvs => sortedKeys kvs && wfKvs kvs
+  | .stream kvs _ => sortedKeys kvs && wfKvs kvs
+  | _ => true
+def wfList : List Obj → Bool
+  | [] => true
+  | x :: t => wfObj x && wfList t
+def wfKvs : List (Bytes × Obj) → Bool
+  | [] => true
+  | (_, v) :: t => wfObj v && wfKvs t
+end
+
+/-- every definition is a well-formed value -/
+def wfDefs (defs : Defs) : Bool := defs.all fun e => wfObj e.2
 
 /-! ### expected DOM -/
 
